@@ -143,13 +143,15 @@ def end_to_end(run, outs, paths, datasets, hashseeds, spec):
                                    traceback=o["traceback"]))
                 reported = True
                 break
-            if o["e2e"]["cscorer_asym"] and not reported:
-                fails += 1
-                a, b = o["e2e"]["cscorer_asym"][0]
-                run.violation(dict(base, kind="the language-specific scorer is not symmetric", hashseed=h,
-                                   cells=[[o["e2e"]["chars"][x], o["e2e"]["chars"][y]] for x, y in o["e2e"]["cscorer_asym"]],
-                                   values=[o["e2e"]["cscorer"][a][b], o["e2e"]["cscorer"][b][a]]))
-                reported = True
+            for pre, what in (("", "LexStat.get_scorer"), ("partial_", "Partial.get_partial_scorer")):
+                e = o["e2e"]
+                if e.get(pre + "cscorer_asym") and not reported:
+                    fails += 1
+                    a, b = e[pre + "cscorer_asym"][0]
+                    run.violation(dict(base, kind="the language-specific scorer (%s) is not symmetric" % what, hashseed=h,
+                                       cells=[[e[pre + "chars"][x], e[pre + "chars"][y]] for x, y in e[pre + "cscorer_asym"]],
+                                       values=[e[pre + "cscorer"][a][b], e[pre + "cscorer"][b][a]]))
+                    reported = True
             if o["repeat"] and not reported:
                 fails += 1
                 r = o["repeat"][0]
@@ -200,6 +202,8 @@ def kernel_cases(outs, paths, hashseeds, scorer_seeds):
                 cases["renum"].append(mk(r))
             if h in hashseeds[:scorer_seeds]:      # the matrices are large literals: fewer hash seeds
                 cases["scorer"].append(mk(k["scorer"]))
+            if h == hashseeds[0] and "scorer_partial" in k:
+                cases["scorer"].append(dict(mk(k["scorer_partial"]), dataset=name + "_partial"))
     return cases
 
 
